@@ -143,7 +143,7 @@ class Lab:
         self.gosum = open(os.path.join(ws, "go.sum")).read()
 
     def run_goa(self, ws, cmd, design, envi=0, extra_args=()):
-        env = dict(self.ctx.goenv())
+        env = dict(self.ctx.goenv(gen=True))
         env.update(ENVS[envi % len(ENVS)])
         t = time.time()
         if design in self.abstract:
@@ -310,7 +310,7 @@ class Lab:
         shutil.copytree(os.path.join(DESIGNS_DIR, design), os.path.join(ws, "designs", design))
         open(os.path.join(ws, "cmdinproc", "main.go"), "w").write(INPROC_MAIN % (MODULE, design))
         binp = os.path.join(ws, "cmdinproc", "inproc.bin")
-        p = subprocess.run(["go", "build", "-o", binp, "./cmdinproc"], cwd=ws, env=self.ctx.goenv(),
+        p = subprocess.run(["go", "build", "-o", binp, "./cmdinproc"], cwd=ws, env=self.ctx.goenv(gen=True),
                            stdout=subprocess.PIPE, stderr=subprocess.STDOUT, text=True, timeout=900)
         if p.returncode != 0:
             raise core.Infra("cannot build the in-process driver for %s:\n%s" % (design, p.stdout[-3000:]))
